@@ -173,3 +173,106 @@ Example sample_pixel_repaired_nonvacuous :
   shown Z 4 st' root Fits 3 1 = Some 111 /\
   match st' root Fits with Some a => a 0 1 = Some 111 | None => False end.
 Proof. vm_compute. repeat split. Qed.
+
+(* ======================================================================================
+   Composition with C03 (parallel leaf visit) and C13 (leaf list): parallel = serial.
+   Proofs in Proofs/GlueSample.v.  Vocabulary:
+   [spec_leaves P]     the callback list of the serial visit (C13 visit_leaves_serial_spec);
+   [VisitPar.run]/[init]  the producer / queue / worker LTS of Model/VisitPar.v (C03), [l]
+                       any schedule; its items are indices into the item list;
+   [started s]         (item, worker) pairs in receive order, newest first;
+   [arg_of d p]        what visit_leaves passes for leaf p: (p, Some p), (p, None) at depth 0;
+   [sample_pyramid]    the pyramid of sample_layer (new_toast) / sample_layer_filtered;
+   [o]                 the order in which the handed-out callbacks take effect: ANY
+                       arrangement of the handed-out items (in particular the receive
+                       order and every interleaving of the workers' own sequences).
+
+   Remaining modelling assumption (VisitPar.v does not carry the store): the callbacks
+   of one visit act as if executed one after another in some order.  They touch
+   pairwise disjoint files (visit_one reads / writes only the files of its own position,
+   SampleLayerP.visit_one_other_pos / visit_one_local; [handed_out_distinct]).
+   ====================================================================================== *)
+From Coq Require Import Arith.
+From Toasty Require Import Model.Reducer Model.VisitPar Proofs.ReducerP Proofs.CountsP Proofs.GlueSample.
+
+(* every well-formed pyramid, every par >= 1, queue and pipe capacity, every schedule that
+   reaches PReturned (no raising callback): the items handed out are exactly the leaf
+   list — each leaf to one worker, once — every callback completed, and executing them
+   in any order o gives the store of the serial visit *)
+Theorem sample_parallel_eq_serial :
+  forall (C V : Type) (sz : Z) (coords : pos -> Z -> Z -> C) (sampler : C -> option V) (c : cfg)
+         (P : pyr) (st : store V) (par cap pcap : nat),
+    wf_pyr P -> (1 <= par)%nat ->
+    forall l : list act,
+    let items := spec_leaves P in
+    let s := VisitPar.run (fun _ => false) (init (length items) par cap pcap true) l in
+    pc s = PReturned ->
+    visit_serial P = Some items /\
+    map (fun i => nth i items root) (rev (map fst (started s))) = items /\
+    map (fun i => nth i items root) (rev (finished s)) = items /\
+    NoDup items /\
+    forall o, Permutation o (map fst (started s)) ->
+      Permutation (map (fun i => arg_of (depth P) (nth i items root)) o) (map (arg_of (depth P)) items) /\
+      forall s_ser s_par,
+        SampleLayer.run C V sz coords sampler c st (map (arg_of (depth P)) items) = Some s_ser ->
+        SampleLayer.run C V sz coords sampler c st (map (fun i => arg_of (depth P) (nth i items root)) o) = Some s_par ->
+        forall q g, s_ser q g = s_par q g.
+Proof. exact sample_parallel_eq_serial_thm. Qed.
+Print Assumptions sample_parallel_eq_serial.
+
+(* sample_layer / sample_layer_filtered, depth >= 1: after any returned parallel visit
+   the store is the one [sample_layer] / [sample_layer_filtered] of this file computes
+   (to which sample_pixel, sample_fileset, filtered_pixel ... apply) *)
+Theorem sample_layer_parallel :
+  forall (C V : Type) (sz : Z) (coords : pos -> Z -> Z -> C) (sampler : C -> option V)
+         (default : fmt) (override : option fmt) (tile_filter : option (pos -> bool))
+         (d : nat) (st : store V) (par cap pcap : nat),
+    (1 <= par)%nat ->
+    let P := sample_pyramid tile_filter (S d) in
+    let c := match tile_filter with
+             | None => mkCfg default override true
+             | Some _ => mkCfg default None false
+             end in
+    let items := spec_leaves P in
+    forall l : list act,
+    let s := VisitPar.run (fun _ => false) (init (length items) par cap pcap true) l in
+    pc s = PReturned ->
+    forall o, Permutation o (map fst (started s)) ->
+    exists s_ref s_par,
+      (match tile_filter with
+       | None => sample_layer C V sz coords sampler default override (S d) st
+       | Some f => sample_layer_filtered C V sz coords sampler default f (S d) st
+       end) = Some s_ref /\
+      SampleLayer.run C V sz coords sampler c st (map (fun i => arg_of (S d) (nth i items root)) o) = Some s_par /\
+      forall q g, s_ref q g = s_par q g.
+Proof. exact sample_layer_parallel_thm. Qed.
+Print Assumptions sample_layer_parallel.
+
+(* the positions handed out in one visit are pairwise different *)
+Theorem handed_out_distinct :
+  forall (P : pyr) (par cap pcap : nat), (1 <= par)%nat ->
+  forall l : list act,
+  let items := spec_leaves P in
+  let s := VisitPar.run (fun _ => false) (init (length items) par cap pcap true) l in
+  pc s = PReturned ->
+  NoDup (map (fun i => nth i items root) (map fst (started s))).
+Proof. exact handed_out_distinct_thm. Qed.
+Print Assumptions handed_out_distinct.
+
+(* SampleLayer.v's row-major leaf list is a rearrangement of the pyramid's leaf list *)
+Theorem leaf_args_are_pyramid_leaves :
+  forall tile_filter d,
+    Permutation (leaf_args d (acc_of tile_filter))
+                (map (arg_of d) (spec_leaves (sample_pyramid tile_filter d))).
+Proof. exact leaf_args_perm. Qed.
+Print Assumptions leaf_args_are_pyramid_leaves.
+
+(* hypotheses satisfiable: the four level-1 leaves, two workers; worker 0 receives items
+   0 and 3, worker 1 items 1 and 2; [0; 3; 1; 2] (worker by worker) is an admissible o *)
+Example sample_parallel_nonvacuous :
+  spec_leaves (sample_pyramid None 1) = [mkPos 1 0%N 0%N; mkPos 1 1%N 0%N; mkPos 1 0%N 1%N; mkPos 1 1%N 1%N] /\
+  let s := VisitPar.run (fun _ => false) (init (length (spec_leaves (sample_pyramid None 1))) 2 2 2 true)
+             glue_ex_visit_schedule in
+  pc s = PReturned /\ started s = [(3, 0); (2, 1); (1, 1); (0, 0)]%nat /\
+  Permutation [0; 3; 1; 2]%nat (map fst (started s)).
+Proof. split; [vm_compute; reflexivity|]. exact glue_ex_visit. Qed.
